@@ -265,4 +265,40 @@ theorem specOps_wf : ∀ (ops : List (Op σ)) (fs : List (Frame σ)), opsWF ops 
       | raised e => simpa using ih1
 end
 
+/-! ## the code as found = the repaired code with every `use_theme` read as inheriting -/
+
+mutual
+def forceOp : Op σ → Op σ
+  | .use t _ body => .use t true (forceOps body)
+  | .push t i => .push t i
+  | .pop => .pop
+  | .raise => .raise
+def forceOps : List (Op σ) → List (Op σ)
+  | [] => []
+  | op :: rest => forceOp op :: forceOps rest
+end
+
+mutual
+theorem runOp_old (op : Op σ) (st : Stack σ) : runOp true op st = runOp false (forceOp op) st :=
+  match op with
+  | .push t i => by simp [forceOp, runOp]
+  | .pop => by simp [forceOp, runOp]
+  | .raise => by simp [forceOp, runOp]
+  | .use t i body => by
+    simp only [forceOp, runOp, ctxEnter, if_true, Bool.false_eq_true, if_false]
+    cases pushTheme st t true with
+    | error e => rfl
+    | ok st1 => simp only [runOps_old body st1]
+theorem runOps_old (ops : List (Op σ)) (st : Stack σ) : runOps true ops st = runOps false (forceOps ops) st :=
+  match ops with
+  | [] => by simp [forceOps, runOps]
+  | op :: rest => by
+    rw [forceOps, runOps_cons, runOps_cons, runOp_old op st]
+    cases runOp false (forceOp op) st with
+    | mk s o =>
+      cases o with
+      | normal => exact runOps_old rest s
+      | raised e => rfl
+end
+
 end RichModel.Theme
